@@ -116,6 +116,14 @@ pub fn is_sched_thread() -> bool {
 /// Yield after a simulated FUTEX_WAKE that woke somebody (so that the scheduler decides whether
 /// the waker or the woken thread goes on first). Set by scenarios that interleave nodes.
 pub static FUTEX_WAKE_YIELDS: std::sync::atomic::AtomicBool = std::sync::atomic::AtomicBool::new(false);
+/// The guarded hook in /repo (`SALTS.lock()` of the deterministic-salt build) calls this before it
+/// takes the lock: a scheduling point also when the lock is free.
+pub static LOCK_POINT_YIELDS: std::sync::atomic::AtomicBool = std::sync::atomic::AtomicBool::new(false);
+pub fn lock_point() {
+    if LOCK_POINT_YIELDS.load(std::sync::atomic::Ordering::Relaxed) && in_job() {
+        yield_point(YieldKind::Explicit);
+    }
+}
 pub static FUTEX_SIM: std::sync::atomic::AtomicBool = std::sync::atomic::AtomicBool::new(true);
 static RUNTIMES: Mutex<Vec<std::sync::Weak<Shared>>> = Mutex::new(Vec::new());
 
